@@ -565,6 +565,88 @@ theorem applyCase_shape (u : UEnv) (c : NameCase) (hc : c ≠ .original) (v : St
       simp only [okChars, List.all_cons] at hmixok ⊢
       rw [okChar_upperA]; exact hmixok
 
+/-- the cases that always start with a capital / with a lower-case letter -/
+def startsUpper : NameCase → Bool
+  | .pascal | .mixedPascal | .screamingSnake => true
+  | _ => false
+
+def startsLower : NameCase → Bool
+  | .snake | .camel => true
+  | _ => false
+
+def headUpper : Str → Bool
+  | c :: _ => isAsciiUpper c
+  | [] => false
+
+def headLower : Str → Bool
+  | c :: _ => isAsciiLower c
+  | [] => false
+
+theorem upper_of_alpha_upperA (x : Char) (h : isAsciiAlpha x = true) : isAsciiUpper (upperA x) = true := by
+  revert h
+  by_cases hc : x.toNat < 128
+  · exact ascii_cases (fun x => isAsciiAlpha x = true → isAsciiUpper (upperA x) = true) x hc (by decide +kernel)
+  · intro h
+    have := ascii_of_alnum x (alnum_of_alpha x h)
+    simp [isAscii] at this
+    exact absurd this hc
+
+theorem lower_of_alpha_lowerA (x : Char) (h : isAsciiAlpha x = true) : isAsciiLower (lowerA x) = true := by
+  revert h
+  by_cases hc : x.toNat < 128
+  · exact ascii_cases (fun x => isAsciiAlpha x = true → isAsciiLower (lowerA x) = true) x hc (by decide +kernel)
+  · intro h
+    have := ascii_of_alnum x (alnum_of_alpha x h)
+    simp [isAscii] at this
+    exact absurd this hc
+
+/-- first character of the result, by case -/
+theorem applyCase_head (u : UEnv) (c : NameCase) (v r : Str) (h : headAlpha (alnum v) = true)
+    (hr : applyCase u c v = some r) :
+    (startsUpper c = true → headUpper r = true) ∧ (startsLower c = true → headLower r = true) := by
+  obtain ⟨x, w1, rest, hws, hx⟩ := words_head v h
+  have hpas : pascalCase v = upperA x :: (titleGo true w1 ++ (rest.map titleA).flatten) := by
+    simp [pascalCase, hws, titleA_cons_alpha x w1 hx]
+  have hmix : mixedCase v = x :: (w1 ++ rest.flatten) := by simp [mixedCase, hws]
+  have hsn : ∃ t, snakeCase v = lowerA x :: t := by
+    obtain ⟨t, ht⟩ := join_cons_head ['_'] (lowerA x) (w1.map lowerA) (rest.map (·.map lowerA))
+    exact ⟨t, by simpa [snakeCase, hws] using ht⟩
+  cases c with
+  | pascal =>
+    simp only [applyCase, Option.some.injEq] at hr
+    subst hr
+    refine ⟨fun _ => ?_, fun h0 => by simp [startsLower] at h0⟩
+    rw [hpas]; exact upper_of_alpha_upperA x hx
+  | mixedPascal =>
+    simp only [applyCase, mixedPascalCase, capitalizeA, hmix, Option.some.injEq] at hr
+    subst hr
+    exact ⟨fun _ => upper_of_alpha_upperA x hx, fun h0 => by simp [startsLower] at h0⟩
+  | screamingSnake =>
+    obtain ⟨t, ht⟩ := hsn
+    simp only [applyCase, screamingSnakeCase, ht, List.map_cons, Option.some.injEq] at hr
+    subst hr
+    refine ⟨fun _ => ?_, fun h0 => by simp [startsLower] at h0⟩
+    exact upper_of_alpha_upperA _ (by rw [isAsciiAlpha_lowerA]; exact hx)
+  | snake =>
+    obtain ⟨t, ht⟩ := hsn
+    simp only [applyCase, ht, Option.some.injEq] at hr
+    subst hr
+    exact ⟨fun h0 => by simp [startsUpper] at h0, fun _ => lower_of_alpha_lowerA x hx⟩
+  | camel =>
+    simp only [applyCase, camelCase, hpas, Option.some.injEq] at hr
+    subst hr
+    refine ⟨fun h0 => by simp [startsUpper] at h0, fun _ => ?_⟩
+    exact lower_of_alpha_lowerA _ (by rw [isAsciiAlpha_upperA]; exact hx)
+  | original => exact ⟨fun h0 => by simp [startsUpper] at h0, fun h0 => by simp [startsLower] at h0⟩
+  | mixed => exact ⟨fun h0 => by simp [startsUpper] at h0, fun h0 => by simp [startsLower] at h0⟩
+  | mixedSnake => exact ⟨fun h0 => by simp [startsUpper] at h0, fun h0 => by simp [startsLower] at h0⟩
+
+theorem upper_lower_disjoint (c : Char) (h1 : isAsciiUpper c = true) (h2 : isAsciiLower c = true) : False := by
+  unfold isAsciiUpper at h1
+  unfold isAsciiLower at h2
+  simp at h1 h2
+  omega
+
 /-! ### what a second pass through `safe_name` appends -/
 
 /-- the text the case function appends when `"_" + prefix` is appended to a name -/
@@ -642,15 +724,165 @@ theorem dropWhile_append_of_ne_nil {α} (f : α → Bool) (a b : List α) (h : a
     · rename_i hx; simp only [hx, if_true] at h; exact ih h
     · rfl
 
+/-! ### collapsing leading underscores -/
+
+theorem collapseLead_head (c : Char) (t : Str) : ∃ t', collapseLead (c :: t) = c :: t' := by
+  unfold collapseLead
+  cases t with
+  | nil => exact ⟨[], rfl⟩
+  | cons b rest =>
+    simp only []
+    split
+    · rename_i h; exact ⟨_, by rw [h.1]⟩
+    · exact ⟨_, rfl⟩
+
+theorem collapseLead_ne_nil (s : Str) (h : s ≠ []) : collapseLead s ≠ [] := by
+  cases s with
+  | nil => exact absurd rfl h
+  | cons c t => obtain ⟨t', ht⟩ := collapseLead_head c t; rw [ht]; simp
+
+theorem mem_dropWhile_of_not {α} (f : α → Bool) (l : List α) (x : α) (hx : x ∈ l) (hf : f x = false) :
+    x ∈ l.dropWhile f := by
+  induction l with
+  | nil => cases hx
+  | cons a l ih =>
+    rw [List.dropWhile_cons]
+    by_cases ha : f a = true
+    · simp only [ha, if_true]
+      rcases List.mem_cons.1 hx with rfl | hx
+      · rw [ha] at hf; cases hf
+      · exact ih hx
+    · simp only [ha]; exact hx
+
+theorem mem_collapseLead_of_ne (s : Str) (x : Char) (hx : x ∈ s) (hne : x ≠ '_') : x ∈ collapseLead s := by
+  unfold collapseLead
+  match s, hx with
+  | [], hx => cases hx
+  | [a], hx => exact hx
+  | a :: b :: rest, hx =>
+    simp only []
+    split
+    · rename_i h
+      rcases List.mem_cons.1 hx with rfl | hx
+      · exact absurd h.1 hne
+      · rcases List.mem_cons.1 hx with rfl | hx
+        · exact absurd h.2 hne
+        · exact List.mem_cons_of_mem _ (mem_dropWhile_of_not _ _ x hx (by simpa using hne))
+    · exact hx
+
+theorem collapseLead_subset (s : Str) (x : Char) (hx : x ∈ collapseLead s) : x ∈ s := by
+  unfold collapseLead at hx
+  match s, hx with
+  | [], hx => exact hx
+  | [a], hx => exact hx
+  | a :: b :: rest, hx =>
+    simp only [] at hx
+    split at hx
+    · rename_i h
+      rcases List.mem_cons.1 hx with rfl | hx
+      · rw [h.1]; simp
+      · exact List.mem_cons_of_mem _ (List.mem_cons_of_mem _ ((List.dropWhile_sublist _).subset hx))
+    · exact hx
+
+theorem collapseLead_append (A B : Str) (hA : ∃ c ∈ A, c ≠ '_') :
+    collapseLead (A ++ B) = collapseLead A ++ B := by
+  obtain ⟨c, hc, hne⟩ := hA
+  match A, hc with
+  | [a], hc =>
+    simp at hc; subst hc
+    unfold collapseLead
+    cases B with
+    | nil => rfl
+    | cons b B' =>
+      simp only [List.cons_append, List.nil_append]
+      have : ¬ (c = '_' ∧ b = '_') := fun h => hne h.1
+      simp [this]
+  | a :: b :: rest, hc =>
+    unfold collapseLead
+    simp only [List.cons_append]
+    by_cases hab : a = '_' ∧ b = '_'
+    · simp only [hab, and_self, if_true, List.cons_append, List.cons.injEq, true_and]
+      have hcr : c ∈ rest := by
+        rcases List.mem_cons.1 hc with rfl | hc
+        · exact absurd hab.1 hne
+        · rcases List.mem_cons.1 hc with rfl | hc
+          · exact absurd hab.2 hne
+          · exact hc
+      have hdn : rest.dropWhile (· = '_') ≠ [] := by
+        intro h0
+        have := mem_dropWhile_of_not (· = '_') rest c hcr (by simpa using hne)
+        rw [h0] at this; cases this
+      exact dropWhile_append_of_ne_nil _ _ _ hdn
+    · simp [hab]
+
+theorem alnum_dropWhile_underscore (s : Str) : alnum (s.dropWhile (· = '_')) = alnum s := by
+  induction s with
+  | nil => rfl
+  | cons a s ih =>
+    rw [List.dropWhile_cons]
+    by_cases ha : a = '_'
+    · subst ha
+      simp only [decide_true, if_true]
+      rw [ih, alnum_cons, underscore_not_alnum]
+      simp
+    · simp [ha]
+
+theorem alnum_collapseLead (s : Str) : alnum (collapseLead s) = alnum s := by
+  unfold collapseLead
+  match s with
+  | [] => rfl
+  | [a] => rfl
+  | a :: b :: rest =>
+    simp only []
+    split
+    · rename_i h
+      rw [h.1, h.2]
+      simp only [alnum_cons, underscore_not_alnum, Bool.false_eq_true, if_false]
+      exact alnum_dropWhile_underscore rest
+    · rfl
+
+/-- the result never starts with two underscores -/
+theorem collapseLead_not_dunder (s t : Str) : collapseLead s ≠ '_' :: '_' :: t := by
+  unfold collapseLead
+  match s with
+  | [] => simp
+  | [a] => simp
+  | a :: b :: rest =>
+    simp only []
+    split
+    · intro h
+      simp only [List.cons.injEq, true_and] at h
+      have hmem : '_' ∈ rest.dropWhile (· = '_') := by rw [h]; simp
+      obtain ⟨y, t', hyt, hy⟩ : ∃ y t', rest.dropWhile (· = '_') = y :: t' ∧ decide (y = '_') = false := by
+        cases hd : rest.dropWhile (· = '_') with
+        | nil => rw [hd] at hmem; cases hmem
+        | cons y t' =>
+          refine ⟨y, t', rfl, ?_⟩
+          have := List.head_dropWhile_not (· = '_') (l := rest) (by rw [hd]; simp)
+          simpa [hd] using this
+      rw [hyt] at h
+      simp only [List.cons.injEq] at h
+      rw [h.1] at hy
+      simp at hy
+    · rename_i hab
+      intro h
+      simp only [List.cons.injEq] at h
+      exact hab ⟨h.1, h.2.1⟩
+
 theorem applyCase_suffix (u : UEnv) (c : NameCase) (v p Y : Str) (hne : p ≠ [])
-    (hp : ∀ x ∈ p, isAsciiLower x = true) (h : applyCase u c v = some Y) (hY : Y ≠ []) :
+    (hp : ∀ x ∈ p, isAsciiLower x = true) (h : applyCase u c v = some Y) (hY : Y ≠ [])
+    (hYl : ∃ c ∈ Y, c ≠ '_') :
     applyCase u c (v ++ '_' :: p) = some (Y ++ caseSuffix c p) := by
   have hsw := splitWords_suffixed v p hne hp
   cases c with
   | original =>
     simp only [applyCase, Option.some.injEq] at h ⊢
     subst h
-    unfold originalCase at hY ⊢
+    obtain ⟨c0, hc0, hne0⟩ := hYl
+    have hcore : ∃ c ∈ originalCore u v, c ≠ '_' := ⟨c0, collapseLead_subset _ c0 hc0, hne0⟩
+    have hcn : originalCore u v ≠ [] := by
+      obtain ⟨c1, hc1, _⟩ := hcore
+      intro h0; rw [h0] at hc1; cases hc1
     have hfp : List.filter u.isWord ('_' :: p) = '_' :: p := by
       rw [List.filter_eq_self]
       intro x hx
@@ -663,7 +895,11 @@ theorem applyCase_suffix (u : UEnv) (c : NameCase) (v p Y : Str) (hne : p ≠ []
       rcases List.mem_cons.1 hx with rfl | hx
       · simp [UEnv.isXidContinue, isAscii]
       · exact isXid_of_alnum u x (alnum_of_alpha x (alpha_of_lower x (hp x hx)))
-    rw [List.filter_append, hfp, List.filter_append, hfx, dropWhile_append_of_ne_nil _ _ _ hY]
+    have hcoreapp : originalCore u (v ++ '_' :: p) = originalCore u v ++ '_' :: p := by
+      unfold originalCore at hcn ⊢
+      rw [List.filter_append, hfp, List.filter_append, hfx, dropWhile_append_of_ne_nil _ _ _ hcn]
+    unfold originalCase
+    rw [hcoreapp, collapseLead_append _ _ hcore]
     rfl
   | pascal =>
     simp only [applyCase, Option.some.injEq] at h ⊢
@@ -873,24 +1109,33 @@ theorem dropWhile_head {α} (f : α → Bool) (l : List α) (x : α) (hx : x ∈
       · exact ih hx
     · exact ⟨a, l, by simp [ha], by simpa using ha⟩
 
-/-- in state D the case function always yields a non-empty result -/
+/-- in state D the case function always yields a non-empty result that contains an ASCII letter -/
 theorem case_some_of_InD (e : Env) (u : UEnv) (c : NameCase) (name : Str) (h : InD e name) :
-    ∃ Y, applyCase u c name = some Y ∧ Y ≠ [] := by
+    ∃ Y, applyCase u c name = some Y ∧ Y ≠ [] ∧ ∃ x ∈ Y, x ≠ '_' := by
   by_cases hc : c = .original
   · subst hc
-    refine ⟨originalCase u name, rfl, ?_⟩
     obtain ⟨x, hx, ha⟩ := exists_alpha_of_headAlpha name h.2
     have hw : u.isWord x = true := by
       have := alnum_of_alpha x ha
       simp [UEnv.isWord, ascii_of_alnum x this, this]
     have hxi : u.isXidContinue x = true := isXid_of_alnum u x (alnum_of_alpha x ha)
-    obtain ⟨y, t, hyt, _⟩ := dropWhile_head (fun c => !(isAsciiAlpha c || c = '_'))
-      ((name.filter u.isWord).filter u.isXidContinue) x
-      (List.mem_filter.2 ⟨List.mem_filter.2 ⟨hx, hw⟩, hxi⟩) (by simp [ha])
-    unfold originalCase
-    rw [hyt]; simp
+    have hxc : x ∈ originalCore u name := by
+      unfold originalCore
+      exact mem_dropWhile_of_not _ _ x (List.mem_filter.2 ⟨List.mem_filter.2 ⟨hx, hw⟩, hxi⟩) (by simp [ha])
+    have hxne : x ≠ '_' := by
+      intro h0; subst h0; revert ha; decide
+    have hxo : x ∈ originalCase u name := mem_collapseLead_of_ne _ x hxc hxne
+    refine ⟨originalCase u name, rfl, ?_, x, hxo, hxne⟩
+    intro h0; rw [h0] at hxo; cases hxo
   · obtain ⟨r, hr, hh, _⟩ := applyCase_shape u c hc name h.2
-    exact ⟨r, hr, ne_nil_of_headAlpha r hh⟩
+    refine ⟨r, hr, ne_nil_of_headAlpha r hh, ?_⟩
+    cases r with
+    | nil => simp [headAlpha] at hh
+    | cons y t =>
+      refine ⟨y, by simp, ?_⟩
+      intro h0; subst h0
+      simp only [headAlpha] at hh
+      revert hh; decide
 
 /-- from state D `safe_name` returns after at most one more call, with a non-reserved result
 that is the case function applied to `name` or to `name_prefix` -/
@@ -901,13 +1146,13 @@ theorem run_of_InD (e : Env) (u : UEnv) (cv : Conv) (hg : goodPrefix cv = true) 
   simp only [goodPrefix, Bool.and_eq_true, Bool.not_eq_true', List.all_eq_true] at hg
   obtain ⟨⟨hpne, hpl⟩, hsfx⟩ := hg
   have hpne' : cv.pfx ≠ [] := by intro h0; simp [h0] at hpne
-  obtain ⟨Y, hY, hYne⟩ := case_some_of_InD e u cv.case name h
+  obtain ⟨Y, hY, hYne, hYl⟩ := case_some_of_InD e u cv.case name h
   have hstep := step_of_InD e u cv name Y h hY
   cases hres : isReserved Y
   · refine ⟨name, Y, Or.inl rfl, h, hY, ?_, hres⟩
     rw [safeNameFuel, hstep]; simp [hres]
   · have h' := InD_suffixed e name cv.pfx h
-    have hY' := applyCase_suffix u cv.case name cv.pfx Y hpne' hpl hY hYne
+    have hY' := applyCase_suffix u cv.case name cv.pfx Y hpne' hpl hY hYne hYl
     have hnr : isReserved (Y ++ caseSuffix cv.case cv.pfx) = false :=
       not_reserved_of_suffix Y _ hYne (List.all_eq_true.2 (by simpa using hsfx))
     have hstep' := step_of_InD e u cv _ _ h' hY'
@@ -1010,8 +1255,10 @@ theorem original_identifier (u : UEnv) (n : Str) (hh : headAlpha (alnum n) = tru
     intro z hz
     rw [← hyt] at hz
     exact (List.mem_filter.1 ((List.dropWhile_sublist _).subset hz)).2
+  have hcore : originalCore u n = y :: t := hyt
+  obtain ⟨t', ht'⟩ := collapseLead_head y t
   unfold originalCase
-  rw [hyt]
+  rw [hcore, ht']
   simp only [UEnv.isIdentifier, Bool.and_eq_true]
   constructor
   · have : isAsciiAlpha y = true ∨ y = '_' := by
@@ -1023,7 +1270,8 @@ theorem original_identifier (u : UEnv) (n : Str) (hh : headAlpha (alnum n) = tru
     · simp [UEnv.isXidStart, isAscii]
   · rw [List.all_eq_true]
     intro z hz
-    exact hsub z (by simp [hz])
+    have hz' : z ∈ collapseLead (y :: t) := by rw [ht']; simp [hz]
+    exact hsub z (collapseLead_subset _ z hz')
 
 /-! ### termination for every prefix `Filters` accepts -/
 
@@ -1069,6 +1317,8 @@ theorem alnum_dropWhile_head (l : Str) (h : headAlpha (alnum l) = true) :
 theorem alnum_originalCase (u : UEnv) (n : Str) (h : headAlpha (alnum n) = true) :
     alnum (originalCase u n) = alnum n := by
   unfold originalCase
+  rw [alnum_collapseLead]
+  unfold originalCore
   have h1 : alnum ((n.filter u.isWord).filter u.isXidContinue) = alnum n := by
     rw [alnum_filter_sup _ (isXid_of_alnum u), alnum_filter_sup _ (isWord_of_alnum u)]
   rw [alnum_dropWhile_head _ (by rw [h1]; exact h), h1]
